@@ -148,7 +148,7 @@ def post(cov, cases, recs):
 
 def run(tier, seed):
     return tracecheck.run(PID, tier, seed, {}, oracle, n_quick=250, n_thorough=4000, casegen=casegen, post=post,
-                          require_props=False, level="translation_validation", mask=1 | 2 | 4 | 8, shrink_budget=6)
+                          mask=1 | 2 | 4 | 8, shrink_budget=6)
 
 
 def replay(payload):
